@@ -1,11 +1,13 @@
 #!/venv/bin/python
 """Re-run every stored seeded change against the current checks (not a registered check).
 For each /verif/seeded/<name>: scratch worktree of /repo HEAD under /tmp, apply patch.diff (skip with a note if it no longer applies), run the quick check of the
-property that detected it (VERIF_RICH_PATH), expect exit 1.  usage: tools/seed_recheck.py [-j N] [NAME ...]"""
+property that detected it (VERIF_RICH_PATH), expect exit 1.  usage: tools/seed_recheck.py [--update] [-j N] [NAME ...]"""
 import json, os, subprocess, sys, tempfile, shutil, glob
 from concurrent.futures import ThreadPoolExecutor
 V = os.path.dirname(os.path.dirname(os.path.abspath(__file__)))
 args = sys.argv[1:]
+UPDATE = "--update" in args  # write the outcome back into meta.json (detected_by / detected)
+args = [a for a in args if a != "--update"]
 jobs = 3
 if args[:1] == ["-j"]:
     jobs = int(args[1]); args = args[2:]
@@ -28,6 +30,12 @@ def one(name):
         for p in props:
             q = sh("cd %s && VERIF_RICH_PATH=%s /venv/bin/python -B -m vp %s --tier quick --no-evidence" % (V, wt, p))
             if q.returncode == 1:
+                if UPDATE:
+                    import re
+                    meta.setdefault("detected_by", {})[p] = {"exit": 1, "sigs": re.findall(r"sig=(\S+)", q.stdout)[:6]}
+                    meta["detected"] = True
+                    meta.setdefault("ran", []).append("re-run: VERIF_RICH_PATH=<worktree> python -m vp %s --tier quick -> exit 1" % p)
+                    json.dump(meta, open(os.path.join(d, "meta.json"), "w"), indent=1)
                 return name, "detected", p
             if q.returncode == 2:
                 return name, "harness-error", p
